@@ -7,9 +7,9 @@ V = os.path.dirname(os.path.dirname(os.path.abspath(__file__)))
 BASE = "cd /repo && /venv/bin/python -m pytest -ra -q -p no:cacheprovider --timeout=900 --continue-on-collection-errors"
 
 META = {
- 'C01': ('bounded-exhaustive round trip on the real encode/decode over all reachable-canonical order-1 arc-subset graphs x starts x messages x table layers',
-         'every (graph,start) class of the complete order-1 arc-subset lattice, binary embeddings at order 2/3 and deletion-bounded order-2 graphs, all messages up to the stated length, three table layers and VT checks; beyond the message bound only the enumerated long family',
-         'reference coder and well-formedness predicate in mc/oracle.py; canonicalisation by reachable part is cross-checked by a differential run with garbage in unreachable rows'),
+ 'C01': ('bounded-exhaustive round trip on the real encode/decode over all reachable-canonical order-1 arc-subset graphs x starts x messages x table layers, plus complete long-message families',
+         'every (graph,start) class of the complete order-1 arc-subset lattice, binary embeddings at order 2/3 and deletion-bounded order-2 graphs, all messages up to the stated length, table layers T0-T3 and VT checks; beyond the message bound the enumerated long families (7 patterns x 10-12 lengths, leading-zero sweep, values next to c*10^e) on 22 fixed graphs incl. all-out-degree-3 and mixed ones',
+         'reference coder and well-formedness predicate in mc/oracle.py; canonicalisation by reachable part is cross-checked by a differential run with garbage in unreachable rows; one array object is rewritten in place for all graphs of a shape'),
  'C02': ('reachable-state invariant (BFS over the generated graph) + bounded-exhaustive encode from every retained start',
          'the window invariant is checked on every reachable vertex and arc of every generated graph, which covers strands of every length; the coder is bound to the graph by exhaustive short messages in both modes and three table layers',
          'filters come from an enumerated menu, plus all 2^16 table filters at order 2 restricted to a structured family; independent window predicate with exact rationals'),
@@ -22,44 +22,44 @@ META = {
  'C05': ('state-graph exploration of the coder (vertex, quotient) with the real encoder as transition function against an integer reference coder; exhaustive walks for decode',
          'character-for-character agreement with an independent mixed-radix reference, which detects changes applied consistently to both directions',
          'same universes as C01'),
- 'C06': ('transition coverage of the walk automaton of every order-1 arc-subset graph on the real decoder + brute-force strings up to length 5',
-         'every (vertex, symbol) transition including rejection and dead vertices on every graph class; exception type checked',
+ 'C06': ('transition coverage of the walk automaton of every order-1 arc-subset graph on the real decoder (9 symbols incl. foreign and whitespace) + brute-force strings + all single edits of short walks + long strands on order 3-5 graphs',
+         'every (vertex, symbol) transition including rejection and dead vertices on every graph class; bit lengths incl. 0 and the tight fast-mode width; checks of length 2, 33, 40; both modes, with and without a table; exception type checked',
          'acceptance assumed to depend on (vertex, next symbol) only; cross-checked by brute force on small classes'),
  'C07': ('exhaustive strands up to length 8 x check lengths against the VT definition; finite-state VT automaton explored completely with every transition replayed on set_vt',
          'the automaton argument covers strands of any length for check lengths <= 3; all single substitutions and C/G/T indels enumerated',
          'reference vt cross-checked against a second formulation'),
- 'C08': ('bounded-exhaustive fault enumeration: all single edits (and spaced double edits) of all walks on generated graphs, repaired by the real repair_dna',
-         'every interior position, edit kind and replacement nucleotide per walk; graphs consumed in a fixed order up to a reported index',
-         'orders 1-3; loop budgets guard termination'),
- 'C09': ('bounded-exhaustive: every walk and every string up to length n on small graph universes x options',
-         'clean strands returned untouched; candidates sorted, duplicate-free and check-consistent on both return paths',
-         'orders 1-3'),
+ 'C08': ('bounded-exhaustive fault enumeration: all single edits (and spaced double edits) of deviation-bounded and rule-generated long walks on generated graphs of order 1-5, repaired by the real repair_dna',
+         'every interior position, edit kind and replacement nucleotide per walk; order-2 generated graphs taken per (vertex count, threshold) stratum',
+         'nothing is claimed beyond the listed graphs; loop budgets guard termination'),
+ 'C09': ('bounded-exhaustive: every walk and every string up to length n on small graph universes x options, long clean walks, double edits and many-error strands with checks',
+         'clean strands returned untouched; candidates sorted, duplicate-free and check-consistent on both return paths, for heap limits 0-1000',
+         'orders 1-5'),
  'C10': ('bounded-exhaustive termination check under deterministic loop budgets: all ACGT strings up to length n x graphs x every start x options, plus complete families of long strands with m = 0..130 isolated errors (many-candidate and single-candidate sites)',
          'a budget hit is a non-termination verdict with the exact input; the long families drive the bounded candidate product',
          'budget is a fixed polynomial with >= 10x slack over the observed maximum'),
  'C11': ('exhaustive: all 2^16 order-2 masks for the valid graph; filter menu x k for vertex discovery incl. user-defined filters',
          'mask[i] <=> filter verdict on the i-th k-mer, arcs exactly between marked shift-neighbours',
          'filters from an enumerated menu'),
- 'C12': ('exhaustive strings up to length 7 (9) x configuration grid against an exact-rational reference predicate',
-         'all strings over ACGT (+ foreign characters) for every configuration of the grid',
+ 'C12': ('exhaustive strings up to length 6 (8) x configuration grid against an exact-rational reference predicate; wide and huge windows; long strings; same-instance histories',
+         'all strings over ACGT (+ foreign characters) for every configuration of the grid; 28 decimals on windows up to 12; windows of 100-256 nucleotides; one instance judged on growing strands',
          'GC bounds are read as the decimals written'),
- 'C13': ('exhaustive enumeration of every vertex of every order 1..8 against string slicing',
-         'all 87,380 vertices of orders 1-8 (9 thorough) plus complete boundary families at orders 10-12; every built/converted graph of a mask family checked entry by entry',
-         'orders above 9 only through the boundary family'),
- 'C14': ('exhaustive: all 65,536 order-1 arc subsets and binary-embedding arc subsets at order 2/3; all illegal single-arc matrices',
-         'round trips are identities on arbitrary (not only vertex-induced) arc subsets; leaf multisets equal reference walks',
-         'order <= 3'),
- 'C15': ('exhaustive decimal strings up to 5 (6) digits x operands 0..9 + complete long-chain families to 1300 digits; carry transducer explored completely with transition coverage',
-         'digit-serial transducer argument lets short strings speak for long ones; the long families pin it',
+ 'C13': ('exhaustive enumeration of every vertex of every order 1..8 (9) against string slicing; whole-array check of the complete accessor at orders 9-10 (11)',
+         'all 87,380 vertices of orders 1-8 plus complete boundary families at orders 10-12; every built/converted graph of a mask family checked entry by entry, incl. permuted successor lists, int8/bool matrices and stray-arc matrices',
+         'orders above 9 only through the boundary family and the complete accessor'),
+ 'C14': ('exhaustive: all 65,536 order-1 arc subsets and binary-embedding arc subsets at order 2/3, an order 4-5 family; all illegal single-arc matrices on every row pattern and inside complete matrices',
+         'round trips are identities on arbitrary (not only vertex-induced) arc subsets; leaf multisets equal reference walks at depths beyond the order; arguments unchanged',
+         'order <= 3 exhaustively, 4-5 through a family'),
+ 'C15': ('exhaustive decimal strings up to 5 (6) digits x operands 0..9 + complete long-chain families (a.d^m.b for every digit d, p.0^m, p.9^m, periodic patterns, numbers of 4299-9000 digits); carry transducer explored completely with transition coverage',
+         'digit-serial transducer argument lets short strings speak for long ones; the long families pin block boundaries of any size',
          'that the implementation is a finite-state transducer is supported by coverage evidence, not proved'),
- 'C16': ('exhaustive bit arrays up to length 14 and DNA strings up to length 7, all numbers below capacity, long family to 4096 bits',
+ 'C16': ('exhaustive bit arrays up to length 14 (16) and DNA strings up to length 7 (8), long family to 1024 (4096) bits, leading-zero sweeps, multiples of powers of ten, a 4312-digit decimal string',
          'round trips, str path == int path, padding',
          'integer path exercised with Python ints as documented'),
- 'C17': ('exhaustive graphs (all order-1 arc subsets, order-2 vertex-induced) x repeats x finite seed menu against a certified Collatz-Wielandt enclosure',
+ 'C17': ('exhaustive graphs (all order-1 arc subsets, order-2 vertex-induced, an order 3-5 family) x repeats x finite seed menu against a certified Collatz-Wielandt enclosure',
          'a continuum of initial vectors cannot be enumerated; the owned environment answer is the seeded numpy RNG',
-         'orders <= 2; precondition decided by own SCC/period and a conservative spectral-gap margin'),
- 'C18': ('exhaustive: k=1..6 x seed menu; all 24 rows x 15 live patterns x all digits on the real encode/decode',
-         'the induced digit map is decided completely; reproducibility across interleaved seeds',
+         'precondition decided by own SCC/period and a conservative spectral-gap margin'),
+ 'C18': ('exhaustive: k=1..6 x seed menu; all 24 rows x 15 live patterns x all digits on the real encode/decode; multi-step walks under constant-row tables',
+         'the induced digit map is decided completely; reproducibility across interleaved seeds, after the caller overwrote a result',
          'seeds from a finite menu'),
  'C19': ('reachable-state search (state hashing on accessor bytes) over arc-removal call sequences on generated graphs; the invariant - one existing arc removed, maximum of an independent reference score, both views equal - is evaluated on every transition',
          'pure flag sequences to the first raising call and mixed sequences with <= 2 changes of (flag combination, successor-list order); the library score function is additionally compared with the reference on every pre-state',
